@@ -16,6 +16,7 @@ struct Op {
   uint64_t a = 0, b = 0;
   uint64_t result = 0;
   int obj = 0;
+  std::string data;               // payload (bytes written / bytes returned by a read)
 };
 
 enum Verdict { LIN_OK, LIN_VIOLATION, LIN_INCONCLUSIVE };
